@@ -4,6 +4,10 @@ afterwards; evidence/replays go to a scratch dir, never to /verif/evidence) and 
 checks report a violation.  usage: tools/seedrun.py [seed ids...]"""
 import json, subprocess, sys, os, shutil, tempfile
 V='/verif'
+# the run works from a snapshot of the binary, specs and known findings so that engine work can go on meanwhile
+VS=tempfile.mkdtemp(prefix='seedrun-verif-')
+shutil.copytree(V+'/specs',VS+'/specs'); shutil.copy(V+'/known_findings.json',VS); shutil.copy(V+'/properties.jsonl',VS); shutil.copy(V+'/MANIFEST.json',VS)
+os.makedirs(VS+'/bin'); shutil.copy(V+'/bin/vcgo',VS+'/bin/vcgo'); BIN=VS+'/bin/vcgo'
 claimed=[c['property_id'] for c in json.load(open(V+'/MANIFEST.json'))['checks']]
 rows=[l.rstrip('\n').split('\t') for l in open(V+'/tools/seeds.tsv') if l.strip()]
 want=set(sys.argv[1:])
@@ -34,15 +38,20 @@ for r in rows:
                     rel.update(mm.group(1).split())
         if os.environ.get('SEEDRUN_ALL'): rel=set(claimed)
         for p in [q for q in claimed if q in rel]:
-            res=subprocess.run([V+'/bin/vcgo','check','-verif',V,'-repo',wt,'-out',out,'-prop',p,'-tier','quick','-noreplay'],capture_output=True,text=True,env=env)
+            res=subprocess.run([BIN,'check','-verif',VS,'-repo',wt,'-out',out,'-prop',p,'-tier','quick','-noreplay'],capture_output=True,text=True,env=env)
             viol=[l for l in res.stdout.split('\n') if l.startswith('VIOLATION')]
             err=[l for l in res.stdout.split('\n') if l.startswith('ERROR')]
             if viol or err:
-                names=[]
+                names=[]; definite=0
                 for l in viol:
                     f=l.split('replay=')[1].split()[0]
                     names.append(os.path.basename(f).replace('.json',''))
-                caught[p]={'violations':len(viol),'obligations':names[:6],'errors':err[:2]}
+                    try:
+                        if json.load(open(f)).get('solver_status')=='sat' or 'dataflow' in json.load(open(f)).get('solver',''): definite+=1
+                    except Exception: pass
+                # 'definite': the solver produced a counterexample (sat) or a dataflow pass reports the violation;
+                # the others are obligations that were discharged on the clean tree and are not (timeout/unknown) on this one
+                caught[p]={'violations':len(viol),'definite':definite,'obligations':names[:6],'errors':err[:2]}
         m=json.load(open(V+'/seeded/'+sid+'/meta.json'))
         m['caught_by']=caught if caught else {}
         m['caught_by_note']='quick checks of %s run on the patched tree (the claimed checks that cover the touched packages); {} = none of them reports it'%(','.join(q for q in claimed if q in rel))
